@@ -211,6 +211,14 @@ func (s *s2) issue(w int) {
 		// several writers compete for the same unique name
 		name := fmt.Sprintf("uniq-%d", ct.spec.Arg)
 		ops = []Op{{"op": "insert", "table": "Root", "uuid": fmt.Sprintf("%08x-1111-4000-a000-%012d", ct.idx+1, w), "row": map[string]any{"name": name, "ia": 200000 + ct.idx, "ib": "uq", "kind": "b"}}, marker}
+		switch r.Intn(4) {
+		case 0:
+			// get-or-create: look the name up first, in the same transaction
+			ops = append([]Op{{"op": "select", "table": "Root", "where": []any{[]any{"name", "==", name}}, "columns": []string{"_uuid", "name"}}}, ops...)
+		case 1:
+			// touch-then-create
+			ops = append([]Op{{"op": "mutate", "table": "Root", "where": []any{[]any{"name", "==", name}}, "mutations": []any{[]any{"num", "+=", 1}}}}, ops...)
+		}
 	case "bulk":
 		// one transaction changes every row of a table: a concurrent reader must see all of it or none
 		ops = []Op{{"op": "mutate", "table": "Root", "where": []any{}, "mutations": []any{[]any{"ratio", "+=", 1.0}}}, marker}
